@@ -101,6 +101,7 @@ def opts_key(o):
 
 PROGRAMS = None
 REFS = None
+UNSTABLE = []
 REPLAY_IN_FRESH_PROCESS = True   # the runner replays witnesses of this property in a new interpreter
 
 
@@ -118,11 +119,15 @@ def build_refs():
     res = env.pmap(fresh_reference, jobs)
     REFS = dict(zip(keys, res))
     # trusted-base check: a second fresh run gives the same normalised outcome
-    sample = list(range(0, len(jobs), 9))
+    sample = list(range(0, len(jobs), 4))
     again = env.pmap(fresh_reference, [jobs[i] for i in sample])
+    global UNSTABLE
+    UNSTABLE = []
     for i, r in zip(sample, again):
         if r != res[i]:
-            raise env.HarnessError("fresh-process reference is not deterministic for %r" % (keys[i],))
+            # the same call in two fresh processes with the same environment: the only thing that differs
+            # is the state of the random generator (unseeded there). That IS the property.
+            UNSTABLE.append((keys[i], jobs[i], res[i], r))
     return len(jobs)
 
 
@@ -451,6 +456,16 @@ def run(report):
     report.rule = RULE % (10 if quick else 16)
     nrefs = build_refs()
     report.extra["fresh_process_references"] = nrefs
+    for (n, key), (src, o), r1, r2 in UNSTABLE[:3]:
+        report.violations.append({
+            "payload": {"kind": "fresh-twice", "prog": n, "src": src, "cfg": list(key)},
+            "diffs": ["the same call in two fresh processes gives different texts beyond the renaming of temporaries: %s"
+                      % _first_difference(r1, r2)],
+            "what": "conversion result is not a function of (source, options): %s, %s" % (n, env.cfg_name(key))})
+    if UNSTABLE:
+        # the references cannot serve as an oracle for histories; what was found is reported
+        report.notes.append("fresh-process references unstable for %d of the re-checked cells: history stages skipped" % len(UNSTABLE))
+        return
     report.extra["pool_programs"] = len(PROGRAMS)
     # deterministic smoke histories first (the shapes the property text names)
     smoke = []
@@ -506,7 +521,7 @@ def run(report):
     report.samples = report.samples[:6]
     report.assumptions += [
         "two fresh processes converting the same input differ only in the random suffixes of "
-        "__ol_ names (checked on a ninth of the references on every run)",
+        "__ol_ names (a quarter of the references is computed twice on every run; a difference is reported as a violation)",
         "illegal option values are expected to raise ValueError; an accepted illegal value is "
         "left to C16 and the object is dropped from the model",
     ]
@@ -525,6 +540,11 @@ def run_history_fresh_diffs(h):
 
 
 def replay(payload):
+    if payload.get("kind") == "fresh-twice":
+        o = dict(zip(("unparser", "expr_wrapper", "if_style"), payload["cfg"]))
+        runs = [fresh_reference((payload["src"], o)) for _ in range(6)]
+        bad = [r for r in runs[1:] if r != runs[0]]
+        return ["the same call in fresh processes gives different texts: %s" % _first_difference(runs[0], bad[0])] if bad else []
     if payload.get("kind") == "hashseed":
         o = dict(zip(("unparser", "expr_wrapper", "if_style"), payload["cfg"]))
         a = fresh_reference((payload["src"], o, 0))
